@@ -239,6 +239,55 @@ func checkC14(w *Worker) {
 	w.Explore("yearless-formats-x-open-periods", ExploreOpts{ShardDepth: 6, Budgets: map[string]int{"layout": 0, "src": 0}}, body(maxRec, ylNames))
 	w.Explore("large-log-yearless-formats-x-open-periods", ExploreOpts{ShardDepth: 2, Budgets: map[string]int{"layout": 0, "src": 0}}, body(0, []int{3}))
 	fmts, nPeriods = c14Formats, 3
+	// merge shapes: every day of 2..5 entries over three foods (and a note), the i-th entry with quantity 2^i, so that the
+	// printed quantity of a food tells exactly which lines were folded into it
+	w.Explore("merge-shapes", ExploreOpts{ShardDepth: 4, Budgets: map[string]int{"layout": 0}}, func(x *Exec) {
+		n := 2 + x.Choose(4, "input:entries")
+		foods := []string{"coffee/cup", "bread", "ел 2"}
+		var items []absItem
+		sum := map[string]float64{}
+		var order []string
+		for i := 0; i < n; i++ {
+			f := foods[x.Choose(len(foods), "input:food")]
+			q := float64(int(1) << uint(i))
+			if i%3 == 2 {
+				q = -q
+			}
+			if _, ok := sum[f]; !ok {
+				order = append(order, f)
+			}
+			sum[f] += q
+			items = append(items, absItem{Name: f, NumText: fmt.Sprint(q)})
+			if i == 1 {
+				items = append(items, absItem{IsNote: true, Name: "mood", NoteText: "ok 1"})
+			}
+		}
+		log := absFile{{Header: "2021/01/24", Items: items}, {Header: "2021/01/25", Items: []absItem{{Name: foods[0], NumText: "1"}}}}
+		text, _ := renderFile(x, log, renderOpts{})
+		c := appCase{Args: []string{"print"}, Files: map[string]string{"food.yaml": "", "log.yaml": text}}
+		r := runApp(c)
+		x.Obs(r.Key())
+		x.Case(text, len(order) < n)
+		want := "2021/01/24:\n  # mood: ok 1\n"
+		for _, f := range order {
+			want += fmt.Sprintf("  %s: %0.2f\n", f, sum[f])
+		}
+		want += "2021/01/25:\n  " + foods[0] + ": 1.00\n"
+		recs, errs, ret, pan := parseAll(r.Stdout)
+		got := ""
+		for _, rec := range recs {
+			got += rec.Header + ":\n"
+			for _, nt := range rec.Notes {
+				got += "  # " + nt.Name + ": " + nt.Value + "\n"
+			}
+			for _, e := range rec.Els {
+				got += fmt.Sprintf("  %s: %0.2f\n", e.Name, e.Value)
+			}
+		}
+		if r.Failed || pan != "" || ret != nil || len(errs) > 0 || got != want {
+			x.Violate("C14|merge-shapes|reads-back-differently", fmt.Sprintf("`%s`\ninput:\n%s\nprinted:\n%s\nreads back as\n%s\nexpected\n%s", c.shell(), text, r.String(), got, want), map[string]interface{}{"cmd": c.shell(), "observed": r.String()})
+		}
+	})
 	w.Explore("format-from-flag-env-config", ExploreOpts{ShardDepth: 6, Budgets: map[string]int{"layout": 0}}, body(1, []int{2}))
 }
 
